@@ -91,6 +91,13 @@ def gen_cases(tier, seed):
                 for na in (2, 3, 4):
                     yield {"w": "unary", "op": op, "shape": list(shp), "na": na, "orders": "all" if na <= 3 else "random", "cancel": True,
                            "cseed": int(seed) * 104729 + next(cs)}
+    # contraction of two modes of a tensor with two or more remaining modes: several diagonal entries that agree in every remaining mode
+    # are summed into one stored entry (and dropped when they cancel)
+    for _ in range(2 if tier == "quick" else 10):
+        for shp, ij in (((2, 2, 2, 2), (0, 1)), ((2, 3, 2, 3), (0, 2)), ((3, 2, 2, 3), (0, 3)), ((2, 2, 3, 2, 2), (1, 3)), ((3, 3, 2, 2), (1, 0))):
+            for na in (2, 3, 4):
+                yield {"w": "unary", "op": "contract", "shape": list(shp), "na": na, "orders": "all" if na <= 3 else "random", "collide": list(ij),
+                       "cseed": int(seed) * 104729 + next(cs)}
     # the structural sanitizer under the other properties' traffic: their quick workloads replayed with only ILLFORMED listening
     import importlib
 
@@ -221,6 +228,25 @@ def run_case(case, ctx):
         params["vecs"] = [np.ones(shape[d]) for d in range(N_ - 1)]
         params["mats"] = [np.ones((1, shape[d])) for d in range(N_ - 1)]
         ctx.feat(cancel=True)
+    if case.get("collide"):
+        i_, j_ = case["collide"]
+        rest = [d for d in range(len(shape)) if d not in (i_, j_)]
+        r_ = [int(rng.integers(0, shape[d])) for d in rest]
+        A = np.zeros(shape)
+        vals_ = [float(v) for v in rng.choice([1.0, 2.0, -1.0, 3.0], size=case["na"])]
+        if rng.random() < 0.4:
+            vals_[1] = -vals_[0]                       # the two diagonal entries cancel
+        for k_ in range(min(case["na"], shape[i_])):
+            idx = [0] * len(shape)
+            idx[i_] = idx[j_] = k_
+            for d, v in zip(rest, r_):
+                idx[d] = v
+            A[tuple(idx)] = vals_[k_]
+        for k_ in range(shape[i_], case["na"]):
+            A[tuple(int(rng.integers(0, s_)) for s_ in shape)] = vals_[k_]
+        na = int(np.count_nonzero(A))
+        params["ij"] = [i_, j_]
+        ctx.feat(collide=True)
     if op == "scale_sp":
         B = params["F"]
         nb = int(np.count_nonzero(B))
